@@ -72,6 +72,34 @@ Unlock(u, p, force, byid) ==
           cacheHas |-> {}, cacheLacks |-> IF ok /\ server[p] = u THEN {p} ELSE {}, cacheExact |-> FALSE, cacheIs |-> {},
           writableIs |-> {}, readonlyIs |-> IF ok /\ ~dirty[u][p] THEN {p} ELSE {}, serverAfter |-> server'])
 
+\* git lfs lock <p> <q> / git lfs unlock <p> <q>: the paths are tried one after the other in the order
+\* given, each on its own terms; what was granted (released) stays granted (released) and is recorded
+\* although the command as a whole reports failure when any path was refused
+Orders == {o \in Paths \X Paths : o[1] # o[2]}
+Rng(s) == {s[i] : i \in DOMAIN s}
+LockMany(u, ord) ==
+  LET granted == {p \in Rng(ord) : server[p] = "none"} IN
+  /\ ord \in Orders
+  /\ server' = [p \in Paths |-> IF p \in granted THEN u ELSE server[p]]
+  /\ order' = order \o SelectSeq(ord, LAMBDA p : p \in granted)
+  /\ cache' = [cache EXCEPT ![u] = @ \cup granted]
+  /\ writable' = [writable EXCEPT ![u] = [p \in Paths |-> IF p \in granted THEN TRUE ELSE @[p]]]
+  /\ UNCHANGED <<dirty, done>>
+  /\ Log([a |-> "lockmany", u |-> u, p |-> "", ps |-> ord, ok |-> (granted = Rng(ord)), force |-> FALSE, byid |-> FALSE,
+          cacheHas |-> granted, cacheLacks |-> {}, cacheExact |-> FALSE, cacheIs |-> {},
+          writableIs |-> granted, readonlyIs |-> {}, serverAfter |-> server'])
+UnlockMany(u, ord, force) ==
+  LET released == {p \in Rng(ord) : server[p] # "none" /\ (force \/ (server[p] = u /\ ~dirty[u][p]))} IN
+  /\ ord \in Orders /\ \E p \in Rng(ord) : server[p] # "none"
+  /\ server' = [p \in Paths |-> IF p \in released THEN "none" ELSE server[p]]
+  /\ order' = SelectSeq(order, LAMBDA x : x \notin released)
+  /\ cache' = [cache EXCEPT ![u] = @ \ {p \in released : server[p] = u}]
+  /\ writable' = [writable EXCEPT ![u] = [p \in Paths |-> IF p \in released THEN FALSE ELSE @[p]]]
+  /\ UNCHANGED <<dirty, done>>
+  /\ Log([a |-> "unlockmany", u |-> u, p |-> "", ps |-> ord, ok |-> (released = Rng(ord)), force |-> force, byid |-> FALSE,
+          cacheHas |-> {}, cacheLacks |-> {p \in released : server[p] = u}, cacheExact |-> FALSE, cacheIs |-> {},
+          writableIs |-> {}, readonlyIs |-> {p \in released : ~dirty[u][p]}, serverAfter |-> server'])
+
 Verify(u) ==         \* git lfs locks --verify : the cache of own locks is refreshed from the server
   /\ cache' = [cache EXCEPT ![u] = Walk(u)]
   /\ UNCHANGED <<server, order, writable, dirty, done>>
@@ -105,6 +133,7 @@ Push(u, p) ==        \* commit a change to p and push it with lock verification 
 Next == \E u \in Users :
           \/ \E p \in Paths : Lock(u, p) \/ Edit(u, p) \/ Push(u, p)
           \/ \E p \in Paths, f, i \in BOOLEAN : Unlock(u, p, f, i)
+          \/ \E ord \in Orders : LockMany(u, ord) \/ \E f \in BOOLEAN : UnlockMany(u, ord, f)
           \/ Verify(u) \/ Hook(u)
 Spec == Init /\ [][Next]_vars
 
@@ -115,6 +144,9 @@ AtMostOneOwner == \A p \in Paths : server[p] \in Users \cup {"none"}
 FreshAfterVerify == [][\A u \in Users : (hist'[Len(hist')].a = "verify" /\ hist'[Len(hist')].u = u) => cache'[u] = {p \in Paths : server'[p] = u}]_vars
 NoUnlockDirty == [][\A u \in Users, p \in Paths :
                      (dirty[u][p] /\ server[p] = u /\ server'[p] = "none" /\ hist'[Len(hist')].u = u) => hist'[Len(hist')].force]_vars
+\* a command that fails as a whole still leaves the cache agreeing with what it did on the server
+PartialRecorded == [][\A u \in Users, p \in Paths :
+                     (hist'[Len(hist')].u = u /\ server[p] # u /\ server'[p] = u) => p \in cache'[u]]_vars
 
 EmitEdge == Emit => CSVWrite("%1$s", <<ToJson(hist')>>, IOEnv.OUT)
 =============================================================================
